@@ -17,10 +17,10 @@ RULE = ("all pairs (A,B): A = newline-terminated tab-free line-shape documents o
         "type of B, equality verdict) plus distinct A block-type sequences.")
 
 PREF = ["", "> ", "- ", "  ", "    ", "1. "]
-LEAF = ["", "a", "# a", "---", "===", "- a", "-", "> a", ">", "```", "[a]: /u", "<div>", "<!-- x", "a|b", "-|-", " "]
+LEAF = ["", "a", "# a", "---", "===", "- a", "-", "> a", ">", "```", "[a]: /u", "<div>", "<!-- x", "a|b", "-|-", " ", "<del>", "<pre>"]
 PREFB = ["", "> ", "- ", "1. "]
-LEAFB = ["a", "# a", "---", "===", "- a", "> a", "```", "[a]: /u", "<div>", "<!-- x", "a|b", "-|-", "    a", "", "[a]: /other 'T'"]
-LEAFB2 = ["a", "---", "===", "- a", "-|-", "    a", ""]
+LEAFB = ["a", "# a", "---", "===", "- a", "> a", "```", "[a]: /u", "<div>", "<!-- x", "a|b", "-|-", "    a", "", "[a]: /other 'T'", "<del>", "<pre>"]
+LEAFB2 = ["a", "---", "===", "- a", "-|-", "    a", "", "<div>"]
 LISTLINE = re.compile(r"^ {0,3}(?:[-+*]|\d{1,9}[.)])(?:[ \t]|$)")
 
 CFGS = [C.cfg("commonmark", {"inline_definitions": True, "store_labels": True}, enable=["table"]), C.cfg("js-default"),
